@@ -198,12 +198,6 @@ func c09ShowCCFB(fb *rtcp.CCFeedbackReport, ref time.Time) string {
 
 func c09RunAdapter(t *testing.T, ops []string, o *Out) {
 	fa := verifhooks.NewFeedbackAdapter()
-	printAcks := func(acks []verifhooks.Acknowledgment) {
-		o.P("acks n=%d", len(acks))
-		for _, a := range acks {
-			o.P("a seq=%d ssrc=%d size=%d dep=%s arr=%s ecn=%d", a.SequenceNumber, a.SSRC, a.Size, c09ZS(a.Departure), c09ZS(a.Arrival), a.ECN)
-		}
-	}
 	for _, op := range ops {
 		name, m := kv(op)
 		switch name {
@@ -229,51 +223,91 @@ func c09RunAdapter(t *testing.T, ops []string, o *Out) {
 			} else {
 				o.P("ok")
 			}
-		case "twcc":
-			fb, ok := c09ParseTWCC(m)
-			if !ok {
-				o.P("bad-op")
-				continue
-			}
-			acks, err := fa.OnTransportCCFeedback(time.Time{}, fb)
-			if err != nil {
-				o.P("err:invalid")
-				continue
-			}
-			printAcks(acks)
-		case "ccfb":
-			fb, ok := c09ParseCCFB(m)
-			if !ok {
-				o.P("bad-op")
-				continue
-			}
-			if c09ZS(verifhooks.ToTime(uint64(fb.ReportTimestamp)<<16)) != m["ref"] {
-				o.P("bad-op") // ref must be the real ntp.ToTime(rts<<16): the NTP conversion is a parameter of the model
-				continue
-			}
-			printAcks(fa.OnRFC8888Feedback(time.Time{}, fb))
-		case "len":
-			l, ml := fa.VerifHistoryLen()
-			o.P("len list=%d map=%d", l, ml)
 		default:
-			o.P("bad-op")
+			if !c09AdapterFeedbackOp(fa, name, m, o.P) {
+				o.P("bad-op")
+			}
 		}
 	}
 }
 
+// c09AdapterFeedbackOp executes the ops of `fbadapter` that READ the adapter (twcc, ccfb, len); false = not one of them.
+func c09AdapterFeedbackOp(fa *verifhooks.FeedbackAdapter, name string, m map[string]string, P func(string, ...any)) bool {
+	printAcks := func(acks []verifhooks.Acknowledgment) {
+		P("acks n=%d", len(acks))
+		for _, a := range acks {
+			P("a seq=%d ssrc=%d size=%d dep=%s arr=%s ecn=%d", a.SequenceNumber, a.SSRC, a.Size, c09ZS(a.Departure), c09ZS(a.Arrival), a.ECN)
+		}
+	}
+	switch name {
+	case "twcc":
+		fb, ok := c09ParseTWCC(m)
+		if !ok {
+			P("bad-op")
+			return true
+		}
+		acks, err := fa.OnTransportCCFeedback(time.Time{}, fb)
+		if err != nil {
+			P("err:invalid")
+			return true
+		}
+		printAcks(acks)
+	case "ccfb":
+		fb, ok := c09ParseCCFB(m)
+		if !ok {
+			P("bad-op")
+			return true
+		}
+		if c09ZS(verifhooks.ToTime(uint64(fb.ReportTimestamp)<<16)) != m["ref"] {
+			P("bad-op") // ref must be the real ntp.ToTime(rts<<16): the NTP conversion is a parameter of the model
+			return true
+		}
+		printAcks(fa.OnRFC8888Feedback(time.Time{}, fb))
+	case "len":
+		l, ml := fa.VerifHistoryLen()
+		P("len list=%d map=%d", l, ml)
+	default:
+		return false
+	}
+	return true
+}
+
+// c09Peer is one rtpfb interceptor (one peer connection) of a case.
+type c09Peer struct {
+	ic      interceptor.Interceptor
+	hist    *rtpfb.VerifHistory
+	writers map[c09WKey]interceptor.RTPWriter
+	queue   []rtcp.Packet
+	// the arrival instants the REMOTE peer recorded for packets named by queued RFC 8888 reports
+	// (`want=` of a `q ccfb` op), to be compared with the decoded arrival of the next `fb`
+	wants map[c09WantKey]time.Time
+}
+
+type c09WKey struct {
+	ssrc uint32
+	tw   bool
+}
+
+type c09WantKey struct {
+	ssrc uint32
+	seq  uint16
+}
+
+// c09ArrivalTolerance: an RFC 8888 arrival time offset has a resolution of 1/1024 s (truncated by the peer) and
+// the report timestamp one of 1/65536 s; 2 µs for the binary64 conversions of internal/ntp.
+const c09ArrivalTolerance = time.Second/1024 + time.Second/65536 + 2*time.Microsecond
+
 func c09RunRtpfb(t *testing.T, ops []string, o *Out) {
 	now := time.Time{}
+	// ONE factory; the interceptor under test and its twin (a second peer connection) are both built from it.
 	f, _ := rtpfb.NewInterceptor(rtpfb.VerifTimeFactory(func() time.Time { return now }))
-	ic, _ := f.NewInterceptor("")
-	defer ic.Close()
-	hist := rtpfb.VerifHistoryOf(ic)
-	type wkey struct {
-		ssrc uint32
-		tw   bool
+	var peers [2]*c09Peer
+	for i := range peers {
+		ic, _ := f.NewInterceptor("")
+		defer ic.Close()
+		peers[i] = &c09Peer{ic: ic, hist: rtpfb.VerifHistoryOf(ic), writers: map[c09WKey]interceptor.RTPWriter{}, wants: map[c09WantKey]time.Time{}}
 	}
-	writers := map[wkey]interceptor.RTPWriter{}
 	payload := make([]byte, 1500)
-	var queue []rtcp.Packet
 	showAck := func(a rtpfb.VerifAck) string {
 		ar := 0
 		if a.Arrived {
@@ -281,71 +315,78 @@ func c09RunRtpfb(t *testing.T, ops []string, o *Out) {
 		}
 		return fmt.Sprintf("k seq=%d arrived=%d arr=%s ecn=%d", a.SequenceNumber, ar, c09ZS(a.Arrival), a.ECN)
 	}
-	showReports := func(prs []rtpfb.PacketReport) {
-		for _, p := range prs {
-			ar, tw := 0, 0
-			if p.Arrived {
-				ar = 1
-			}
-			if p.IsTWCC {
-				tw = 1
-			}
-			o.P("r ctr=%d ssrc=%d seq=%d istw=%d tw=%d size=%d dep=%s arrived=%d arr=%s ecn=%d", p.SequenceNumber, p.SSRC,
-				p.RTPSequenceNumber, tw, p.TWCCSequenceNumber, p.Size, c09ZS(p.Departure), ar, c09ZS(p.Arrival), p.ECN)
-		}
-	}
 	parseAck := func(m map[string]string) rtpfb.VerifAck {
 		return rtpfb.VerifAck{SequenceNumber: uint16(atoi(m["seq"])), Arrived: m["arrived"] == "1", Arrival: c09ZT(m["arr"]), ECN: rtcp.ECN(atoi(m["ecn"]))}
 	}
 	checkRef := func(fb *rtcp.CCFeedbackReport, ts time.Time, ref string) bool {
 		return c09ZS(verifhooks.ToTime32(fb.ReportTimestamp, ts)) == ref
 	}
-	for _, op := range ops {
+	for _, fullOp := range ops {
+		op, who := twinOp(fullOp)
+		pe := peers[who]
+		P := func(format string, a ...any) { o.PW(who, format, a...) }
+		showReports := func(prs []rtpfb.PacketReport) {
+			for _, p := range prs {
+				ar, tw := 0, 0
+				if p.Arrived {
+					ar = 1
+				}
+				if p.IsTWCC {
+					tw = 1
+				}
+				P("r ctr=%d ssrc=%d seq=%d istw=%d tw=%d size=%d dep=%s arrived=%d arr=%s ecn=%d", p.SequenceNumber, p.SSRC,
+					p.RTPSequenceNumber, tw, p.TWCCSequenceNumber, p.Size, c09ZS(p.Departure), ar, c09ZS(p.Arrival), p.ECN)
+			}
+		}
 		name, m := kv(op)
 		switch name {
 		case "ctwcc":
 			fb, ok := c09ParseTWCC(m)
 			if !ok {
-				o.P("bad-op")
+				P("bad-op")
 				continue
 			}
 			acks := rtpfb.VerifConvertTWCC(fb)
-			o.P("acks n=%d", len(acks))
+			P("acks n=%d", len(acks))
 			for _, a := range acks {
-				o.P("%s", showAck(a))
+				P("%s", showAck(a))
 			}
 		case "cccfb":
 			fb, ok := c09ParseCCFB(m)
 			if !ok || m["now"] == "" || !checkRef(fb, c09ZT(m["now"]), m["ref"]) {
-				o.P("bad-op")
+				P("bad-op")
 				continue
 			}
 			d, res := rtpfb.VerifConvertCCFB(c09ZT(m["now"]), fb)
-			o.P("delay=%d streams=%d", int64(d), len(res))
+			P("delay=%d streams=%d", int64(d), len(res))
 			ssrcs := []uint32{}
 			for s := range res {
 				ssrcs = append(ssrcs, s)
 			}
 			sort.Slice(ssrcs, func(i, j int) bool { return ssrcs[i] < ssrcs[j] })
 			for _, s := range ssrcs {
-				o.P("ssrc=%d n=%d", s, len(res[s]))
+				P("ssrc=%d n=%d", s, len(res[s]))
 				for _, a := range res[s] {
-					o.P("%s", showAck(a))
+					P("%s", showAck(a))
 				}
 			}
 		case "send": // send ssrc= seq= b=<stream bound with TWCC ext 0|1> tw=<n|-> pl=<payload len> t=
-			k := wkey{uint32(atoi(m["ssrc"])), m["b"] == "1"}
-			w, ok := writers[k]
+			k := c09WKey{uint32(atoi(m["ssrc"])), m["b"] == "1"}
+			w, ok := pe.writers[k]
 			if !ok {
 				info := &interceptor.StreamInfo{SSRC: k.ssrc}
 				if k.tw {
 					// every stream negotiates its own extension id (1..13, a function of the SSRC)
 					info.RTPHeaderExtensions = []interceptor.RTPHeaderExtension{{URI: c09TwccURI, ID: c09ExtID(k.ssrc)}}
 				}
-				w = ic.BindLocalStream(info, interceptor.RTPWriterFunc(func(_ *rtp.Header, p []byte, _ interceptor.Attributes) (int, error) {
+				g := guardInfo(info)
+				w = pe.ic.BindLocalStream(info, interceptor.RTPWriterFunc(func(_ *rtp.Header, p []byte, _ interceptor.Attributes) (int, error) {
 					return len(p), nil
 				}))
-				writers[k] = w
+				if d := g.Check(); d != "" {
+					P("STREAMINFO-EDITED %s", d)
+				}
+				pe.writers[k] = w
 			}
 			h := rtp.Header{Version: 2, SSRC: k.ssrc, SequenceNumber: uint16(atoi(m["seq"]))}
 			if m["tw"] != "-" {
@@ -354,75 +395,102 @@ func c09RunRtpfb(t *testing.T, ops []string, o *Out) {
 			}
 			now = c09ZT(m["t"])
 			if _, err := w.Write(&h, payload[:atoi(m["pl"])], nil); err != nil {
-				o.P("err:write")
+				P("err:write")
 			}
 		case "q": // q twcc … | q ccfb now=… …   (queue one parsed RTCP packet for the next `fb`)
 			f := strings.Fields(op)
 			if len(f) < 2 {
-				o.P("bad-op")
+				P("bad-op")
 				continue
 			}
 			if f[1] == "twcc" {
 				fb, ok := c09ParseTWCC(m)
 				if !ok {
-					o.P("bad-op")
+					P("bad-op")
 					continue
 				}
-				queue = append(queue, fb)
+				pe.queue = append(pe.queue, fb)
 			} else if f[1] == "ccfb" {
 				fb, ok := c09ParseCCFB(m)
 				if !ok || m["now"] == "" || !checkRef(fb, c09ZT(m["now"]), m["ref"]) {
-					o.P("bad-op")
+					P("bad-op")
 					continue
 				}
-				queue = append(queue, fb)
+				pe.queue = append(pe.queue, fb)
+				// want=<ssrc>:<seq>:<Z-time>/… : what the peer that built this report recorded as arrival instants
+				// (its own clock).  No model reads it; the next `fb` compares the decoded arrivals with it.
+				// (a later report about the same packet supersedes what an earlier queued one said)
+				for _, rb := range fb.ReportBlocks {
+					for i := range rb.MetricBlocks {
+						delete(pe.wants, c09WantKey{rb.MediaSSRC, rb.BeginSequence + uint16(i)})
+					}
+				}
+				if w := m["want"]; w != "" && w != "-" {
+					for _, e := range strings.Split(w, "/") {
+						q := strings.Split(e, ":")
+						if len(q) == 3 {
+							pe.wants[c09WantKey{uint32(atoi(q[0])), uint16(atoi(q[1]))}] = c09ZT(q[2])
+						}
+					}
+				}
 			} else if f[1] == "other" && len(f) == 2 {
 				// an RTCP packet that is no congestion-control feedback; the kind rotates, the model has one `other`
-				switch len(queue) % 3 {
+				switch len(pe.queue) % 3 {
 				case 0:
-					queue = append(queue, &rtcp.ReceiverReport{SSRC: 9, Reports: []rtcp.ReceptionReport{{SSRC: 1, LastSequenceNumber: 5}}})
+					pe.queue = append(pe.queue, &rtcp.ReceiverReport{SSRC: 9, Reports: []rtcp.ReceptionReport{{SSRC: 1, LastSequenceNumber: 5}}})
 				case 1:
-					queue = append(queue, &rtcp.PictureLossIndication{SenderSSRC: 9, MediaSSRC: 1})
+					pe.queue = append(pe.queue, &rtcp.PictureLossIndication{SenderSSRC: 9, MediaSSRC: 1})
 				default:
-					queue = append(queue, &rtcp.TransportLayerNack{SenderSSRC: 9, MediaSSRC: 1, Nacks: []rtcp.NackPair{{PacketID: 0}}})
+					pe.queue = append(pe.queue, &rtcp.TransportLayerNack{SenderSSRC: 9, MediaSSRC: 1, Nacks: []rtcp.NackPair{{PacketID: 0}}})
 				}
 			} else {
-				o.P("bad-op")
+				P("bad-op")
 			}
 		case "fb": // fb now=  : processFeedback(now, queued packets); what the RTCP reader would attach
 			ts := c09ZT(m["now"])
-			pk := queue
-			queue = nil
-			rtt, prs := rtpfb.VerifProcessFeedback(ic, ts, pk)
+			pk := pe.queue
+			pe.queue = nil
+			wants := pe.wants
+			pe.wants = map[c09WantKey]time.Time{}
+			rtt, prs := rtpfb.VerifProcessFeedback(pe.ic, ts, pk)
 			if len(prs) == 0 {
-				o.P("report none")
+				P("report none")
 				continue
 			}
-			o.P("report rtt=%d n=%d", int64(rtt), len(prs))
+			P("report rtt=%d n=%d", int64(rtt), len(prs))
 			showReports(prs)
+			for _, p := range prs {
+				// the decoded arrival instant is the one the remote peer recorded (on the remote clock), to
+				// within the resolution of the format — however far the two clocks are apart
+				if w, ok := wants[c09WantKey{p.SSRC, p.RTPSequenceNumber}]; ok && p.Arrived && !p.IsTWCC {
+					if d := p.Arrival.Sub(w); d > c09ArrivalTolerance || d < -c09ArrivalTolerance {
+						P("ARRIVAL-SKEW ssrc=%d seq=%d decoded=%s peer-recorded=%s diff=%s", p.SSRC, p.RTPSequenceNumber, c09ZS(p.Arrival), c09ZS(w), d)
+					}
+				}
+			}
 		case "hack": // direct history.onTWCCFeedback / onCCFBFeedback
 			a := parseAck(m)
 			var d time.Duration
 			var ok bool
 			if s, has := m["ssrc"]; has {
-				d, ok = hist.OnCCFBFeedback(c09ZT(m["now"]), uint32(atoi(s)), a)
+				d, ok = pe.hist.OnCCFBFeedback(c09ZT(m["now"]), uint32(atoi(s)), a)
 			} else {
-				d, ok = hist.OnTWCCFeedback(c09ZT(m["now"]), a)
+				d, ok = pe.hist.OnTWCCFeedback(c09ZT(m["now"]), a)
 			}
 			if ok {
-				o.P("rtt=%d", int64(d))
+				P("rtt=%d", int64(d))
 			} else {
-				o.P("unknown")
+				P("unknown")
 			}
 		case "hbuild":
-			prs := hist.BuildReport()
-			o.P("built n=%d", len(prs))
+			prs := pe.hist.BuildReport()
+			P("built n=%d", len(prs))
 			showReports(prs)
 		case "hsizes":
-			p, tw, ss := hist.Sizes()
-			o.P("sizes packets=%d twcc=%d ssrcseq=%d", p, tw, ss)
+			p, tw, ss := pe.hist.Sizes()
+			P("sizes packets=%d twcc=%d ssrcseq=%d", p, tw, ss)
 		default:
-			o.P("bad-op")
+			P("bad-op")
 		}
 	}
 }
@@ -837,10 +905,56 @@ func c09GenAdapter(r *Rng, tier string, idx int) Case {
 	return Case{Class: cl, Ops: ops}
 }
 
-var c09RtpfbClasses = []string{"conv-twcc", "conv-ccfb", "twcc-recorder", "ccfb-recorder", "twcc-hand", "ccfb-hand", "history", "inflight", "idle-reads"}
+var c09RtpfbClasses = []string{"conv-twcc", "conv-ccfb", "twcc-recorder", "ccfb-recorder", "twcc-hand", "ccfb-hand", "history", "inflight", "idle-reads",
+	"ccfb-skew", "twin", "twin"}
+
+// the classes a twin case is made of (everything that goes through an interceptor's history)
+var c09TwinBases = []string{"twcc-recorder", "ccfb-recorder", "twcc-hand", "ccfb-hand", "history", "idle-reads", "ccfb-skew", "inflight"}
 
 func c09GenRtpfb(r *Rng, tier string, idx int) Case {
 	cl := c09RtpfbClasses[idx%len(c09RtpfbClasses)]
+	if cl != "twin" {
+		return Case{Class: cl, Ops: c09GenRtpfbClass(r, cl)}
+	}
+	// Two peer connections: the interceptor under test and a twin built from the same factory each carry a case
+	// of their own.  Transport-wide numbers and (SSRC, sequence number) pairs collide as they do in an
+	// application (both connections count from the same values): the twin's traffic is either a variant of the
+	// first one's (same numbers, other sizes, some packets / reads left out) or an independent case of the class.
+	base := c09TwinBases[r.Intn(len(c09TwinBases))]
+	for base == "inflight" && r.Chance(2, 3) {
+		base = c09TwinBases[r.Intn(len(c09TwinBases))]
+	}
+	a := c09GenRtpfbClass(r, base)
+	var b []string
+	if r.Chance(2, 3) {
+		b = c09RtpfbVariant(r, a)
+	} else {
+		b = c09GenRtpfbClass(r, base)
+	}
+	return Case{Class: "twin-" + base, Ops: twinInterleave(r, a, b, r.Pick(1, 3, 10, 40))}
+}
+
+// c09RtpfbVariant: the same numbers as `ops`, other payload sizes and ECN marks, some ops left out.
+func c09RtpfbVariant(r *Rng, ops []string) []string {
+	var out []string
+	for _, op := range ops {
+		if r.Chance(1, 6) {
+			continue
+		}
+		f := strings.Fields(op)
+		if f[0] == "send" {
+			for i, x := range f {
+				if strings.HasPrefix(x, "pl=") {
+					f[i] = fmt.Sprintf("pl=%d", r.Range(0, 1200))
+				}
+			}
+		}
+		out = append(out, strings.Join(f, " "))
+	}
+	return out
+}
+
+func c09GenRtpfbClass(r *Rng, cl string) []string {
 	var ops []string
 	ms := int64(r.Intn(100000))
 	sendOp := func(ssrc uint32, seq int, b bool, tw int, pl int) string {
@@ -1117,8 +1231,119 @@ func c09GenRtpfb(r *Rng, tier string, idx int) Case {
 		}
 		idle(r.Range(1, 2)) // after the last acknowledgement
 		ops = append(ops, "hsizes")
+	case "ccfb-skew":
+		ops = c09GenSkew(r)
 	}
-	return Case{Class: cl, Ops: ops}
+	return ops
+}
+
+// c09NTPWindow returns the bounds [lo, hi) of the 2^16-second window of NTP time (aligned: ntp.ToTime32 takes the
+// upper 16 bits of the seconds from its reference) in which t lies.
+func c09NTPWindow(t time.Time) (lo, hi time.Time) {
+	const ntpUnix = 2208988800
+	w := (t.Unix() + ntpUnix) >> 16
+	return time.Unix(w<<16-ntpUnix, 0).UTC(), time.Unix((w+1)<<16-ntpUnix, 0).UTC()
+}
+
+// c09GenSkew, class `ccfb-skew`: RTP clocks are not synchronised.  The remote peer — the real rfc8888.Recorder —
+// records arrivals and stamps its report on ITS clock, which is ahead of or behind the local clock by anything from
+// one unit of the report timestamp (1/65536 s) to several hours, inside the same 2^16-second NTP window (the
+// precondition of the 32-bit round trip, C20).  The local interceptor reads the report at local time `now`.  The op
+// carries what the peer recorded (`want=`, read by the Go interpreter only): every decoded arrival instant must be
+// the peer's, to within the 1/1024 s resolution of the arrival time offset.
+func c09GenSkew(r *Rng) []string {
+	var ops []string
+	rec := rfc8888.NewRecorder()
+	ssrcs := []uint32{uint32(r.Range(1, 5)), uint32(r.Range(6, 9))}
+	seq := map[uint32]int{ssrcs[0]: r.Pick(0, 65500, r.Intn(65536)), ssrcs[1]: r.Intn(65536)}
+	// local time: somewhere in the window of 2000-01-01 (13.8 h of it lie before that instant, 4.4 h after it); a
+	// case lasts less than 15 s and ends before the window does
+	ms := int64(r.Pick(r.Intn(100000), r.Intn(15_000_000), 15_780_000+r.Intn(60_000)))
+	// the skew of the peer's clock is a property of the connection: drawn once per case (plus a small drift)
+	unit := time.Second / 65536
+	skew := time.Duration(r.Pick(0, 1, 1, 2, 3, 65, 66, 655, 65536, 65536*60, 65536*3600, 65536*3*3600, 65536*4*3600, 65536*13*3600,
+		r.Intn(65536), r.Intn(65536*600), r.Intn(65536*4*3600))) * unit
+	if r.Bool() {
+		skew += time.Duration(r.Intn(15258)) // not a multiple of the unit
+	}
+	if r.Bool() {
+		skew = -skew
+	}
+	// the peer's clock stays inside the window of the local clock for the whole case: otherwise the largest skew
+	// of that sign that does
+	{
+		now0 := c09At(ms)
+		lo, hi := c09NTPWindow(now0)
+		if !now0.Add(skew).Before(hi.Add(-time.Minute)) {
+			skew = hi.Add(-time.Minute).Sub(now0) - time.Duration(r.Intn(1_000_000_000))
+		}
+		if !now0.Add(skew).After(lo.Add(time.Minute)) {
+			skew = lo.Add(time.Minute).Sub(now0) + time.Duration(r.Intn(1_000_000_000))
+		}
+	}
+	for rounds := r.Range(1, 4); rounds > 0; rounds-- {
+		n := r.Range(1, 40)
+		type arr struct {
+			ssrc uint32
+			seq  uint16
+			at   time.Time // peer clock
+			n    int
+		}
+		var batch []c09Sent
+		for i := 0; i < n; i++ {
+			s := ssrcs[r.Intn(2)]
+			ops = append(ops, fmt.Sprintf("send ssrc=%d seq=%d b=0 tw=- pl=%d t=%s", s, seq[s]&0xFFFF, r.Range(0, 1200), c09ZS(c09At(ms))))
+			batch = append(batch, c09Sent{ssrc: s, seq: uint16(seq[s]), ms: ms})
+			seq[s]++
+			ms += int64(r.Range(0, 12))
+		}
+		ms += int64(r.Pick(70, 100, 300, 2000))
+		now := c09At(ms).Add(time.Duration(r.Intn(1_000_000))) // the local clock when the report is read
+		sk := skew + time.Duration(r.Range(-2000, 2000))       // drift
+		peerNow := now.Add(sk)
+		if lo, hi := c09NTPWindow(now); !peerNow.After(lo) || !peerNow.Before(hi) {
+			panic("ccfb-skew generator: the peer's clock left the window of the local clock")
+		}
+		// arrivals on the peer's clock
+		seen := map[c09WantKey]*arr{}
+		idx, at := c09Arrivals(r, batch)
+		for k, i := range idx {
+			a := c09At(at[k]).Add(time.Duration(r.Intn(1_000_000))).Add(sk)
+			if a.After(peerNow) {
+				a = peerNow.Add(-time.Duration(r.Intn(5_000_000)))
+			}
+			rec.AddPacket(a, batch[i].ssrc, batch[i].seq, uint8(r.Intn(4)))
+			key := c09WantKey{batch[i].ssrc, batch[i].seq}
+			if e, ok := seen[key]; ok {
+				e.n++
+			} else {
+				seen[key] = &arr{batch[i].ssrc, batch[i].seq, a, 1}
+			}
+		}
+		rep := rec.BuildReport(peerNow, r.Pick(1200, 1200, 300))
+		fb, ok := c09RoundTripCCFB(rep)
+		if !ok {
+			continue
+		}
+		var wants []string
+		for _, rb := range fb.ReportBlocks {
+			for i, mb := range rb.MetricBlocks {
+				e, ok := seen[c09WantKey{rb.MediaSSRC, rb.BeginSequence + uint16(i)}]
+				// an offset of 0x1FFE is "that long ago or longer", 0x1FFF "unavailable"; a packet recorded twice has two instants
+				if ok && e.n == 1 && mb.Received && mb.ArrivalTimeOffset < 0x1FFE {
+					wants = append(wants, fmt.Sprintf("%d:%d:%s", e.ssrc, e.seq, c09ZS(e.at)))
+				}
+			}
+		}
+		w := "-"
+		if len(wants) > 0 {
+			w = strings.Join(wants, "/")
+		}
+		ops = append(ops, "q ccfb "+c09CCFBOp(fb, now, false)+" want="+w)
+		ops = append(ops, "fb now="+c09ZS(now))
+		ops = append(ops, "hsizes")
+	}
+	return ops
 }
 
 func init() {
@@ -1131,6 +1356,22 @@ func init() {
 		},
 		Gen: c09GenAdapter,
 		Run: c09RunAdapter,
+	})
+	register("ccfbskew", &Comp{ // the clock-skew class alone (model `rtpfb`): the 32-bit NTP round trip seen from its user (C20)
+		N: func(tier string) int {
+			if tier == "thorough" {
+				return 20000
+			}
+			return 600
+		},
+		Gen: func(r *Rng, tier string, idx int) Case {
+			if idx%4 == 3 { // a second connection of the same factory whose peer has another skew
+				a, b := c09GenSkew(r), c09GenSkew(r)
+				return Case{Class: "twin-ccfb-skew", Ops: twinInterleave(r, a, b, r.Pick(1, 3, 10))}
+			}
+			return Case{Class: "ccfb-skew", Ops: c09GenSkew(r)}
+		},
+		Run: c09RunRtpfb,
 	})
 	register("rtpfb", &Comp{
 		N: func(tier string) int {
